@@ -445,11 +445,25 @@ func (c *Ctx) reorderRules() {
 				}
 			}
 		}
-		if rs == nil || inv == nil || rec == nil || nP == nil || prevP == nil || rs.Value == nil {
-			c.Undecided("GF", "tree.Tree.ReorderEdges/shape", fi.Decl.Pos(), "expected a range over the node's branches with an Inverse call and a recursive call")
+		// the branch being looked at = the receiver of Inverse, whatever the loop form
+		e := ""
+		inLoop := false
+		if inv != nil {
+			if sel, ok := unparen(inv.Fun).(*ast.SelectorExpr); ok {
+				e = c.canon(info, sel.X, nil)
+			}
+			for _, a := range stackTo(fi.Decl.Body, inv) {
+				switch a.(type) {
+				case *ast.ForStmt, *ast.RangeStmt:
+					inLoop = true
+				}
+			}
+		}
+		_ = rs
+		if !inLoop || inv == nil || rec == nil || nP == nil || prevP == nil || e == "" {
+			c.Undecided("GF", "tree.Tree.ReorderEdges/shape", fi.Decl.Pos(), "expected a loop over the node's branches with an Inverse call and a recursive call")
 		} else {
-			ev := identObj(info, rs.Value)
-			e, n, prev := ev.Name(), nP.Name(), prevP.Name()
+			n, prev := nP.Name(), prevP.Name()
 			// over the branches of n other than the one to prev: inverse <=> right == n
 			conds, okc := c.pathConds(info, fi.Decl.Body, inv, true)
 			code := c.condsToBexpr(info, conds, nil)
